@@ -6,18 +6,9 @@ import sys
 
 VERIF = os.path.dirname(os.path.dirname(os.path.abspath(__file__)))
 MISS = {
-    "C07-r1-2": "needs same-named classes imported from two modules (aliased imports of compound choices); the pipeline pools use one schema / one namespace",
     "C08-r1-3": "the difference is lxml raising ValueError for the prefix '' inside the C library: behind the SAX seam (the recorded streams stay infoset-equal)",
-    "C08-r2-1": "remove_comments is an option of lxml's C parser: comments never reach the seam",
-    "C09-r2-3": "remove_comments is an option of lxml's C parser: comments never reach the seam",
     "C10-r1-2": "missed by the quick tier when run; the check now has a document with an object nested below a best-match object (doc holdernest)",
-    "C11-r1-2": "needs a typed model with a wildcard LIST nested inside another model's mixed wildcard followed by tail text: not among the tree shapes",
-    "C12-r1-2": "needs two same-named classes imported from modules whose paths differ in two parts; the graphs use one namespace / one file",
     "C12-r1-3": "ResourceTransformer's on-disk cache (file I/O, click-dependent CLI route): outside the ordering kernels",
-    "C15-r1-1": "content after the root end tag is a byte-level well-formedness matter handled by expat behind the seam",
-    "C19-r1-2": "the race needs a preemption INSIDE a statement (a list comprehension iterating the shared dict): outside the statement-boundary bound",
-    "C19-r2-1": "needs classes that share an xsi:type name without being related plus a preemption inside list.sort(): outside the statement-boundary bound and the pool",
-    "C19-r2-2": "shared ParserConfig mutated and restored inside UnionNode.bind: only visible to a concurrent FULL parse; C19 lowers the context / XmlVar API only",
     "C19-r2-3": "from_path / XInclude base_url: file I/O, outside every claim",
 }
 res = {}
@@ -42,6 +33,8 @@ for src, d in sorted(res.items()):
     os.makedirs(dst, exist_ok=True)
     for f in ("patch.diff", "demo.py"):
         shutil.copy(os.path.join(src, f), os.path.join(dst, f))
+    if os.path.exists(os.path.join(src, "patch.orig.diff")):  # the change as written, before it was rebased onto a later fix: commit in /repo
+        shutil.copy(os.path.join(src, "patch.orig.diff"), os.path.join(dst, "patch.original.diff"))
     meta = json.load(open(os.path.join(src, "meta.json")))
     meta["property"] = prop
     meta["confirmed"] = {"tests_passed_with_change": d["tests_passed"], "demo_exit_clean_tree": d["demo_clean_exit"], "demo_exit_patched_tree": d["demo_patched_exit"],
